@@ -9,7 +9,7 @@ BUILDS = [(NAME, "plain"), (NAME, "tsan"), (NAME, "asan")]
 
 SCN = ["accept", "refuse", "blackhole", "rst-after-accept", "tls-ok", "tls-wrong-ca", "tls-garbage", "tls-slow",
        "tls-stall", "tls-rst-after-hello", "resolve-fail", "resolve-slow-fail", "resolve-slow-ok",
-       "tls-requested-not-configured"]
+       "tls-requested-not-configured", "tls-slow-engine-connect-timer"]
 
 
 def _ingest_first_pass(ctx, rr, where):
@@ -108,6 +108,8 @@ def run(ctx):
            "calls_cancellable", "batches_16_32_callers", "batches_1_caller",
            "result_ok", "result_Timeout", "result_Connect", "result_Resolve", "result_TLSHandshake", "result_Cancelled"]
     req += ["calls_" + s for s in SCN]
+    req += ["io_thread_holds_in_slow_onData", "calls_with_short_engine_connect_timer", "engine_connect_timer_closed_a_pending_connect",
+            "returned_sessions_checked_for_transport_side_close"]
     req += ["calls_teardown-racing", "teardown_racing_destroyed_with_callers_parked", "teardown_racing_stopped",
             "teardown_racing_returned_ShuttingDown", "teardown_racing_returned_ok",
             "teardown_racing_connects_completed_after_caller_gave_up"]
